@@ -10,7 +10,7 @@ RULE = ("Mode G: edges negate(), Not(), and negate() again (double negation) fro
         "(all value/sign combinations; atoms only, compounds only, mixed children; integer leaves; explicit/generated ids; diamonds; depth-3 "
         "chains) and from every depth-2 connective formula object (Xor/XNor/Imply structures, 3-4 real levels) x every in-bounds total "
         "assignment. oracle: evaluate(negated) == 1 - reference truth(original); solver-safe boolean states stay solver-safe (judged on the "
-        "result's real structure); explicit id kept and not flagged generated. non-trivial = distinct state with non-constant truth table")
+        "result's real structure); explicit id kept and not flagged generated (incl. explicit ids that begin with 'VAR'); id orders in which atoms and compounds interleave; every fifth model over leaves of a subclass of puan.variable. non-trivial = distinct state with non-constant truth table")
 ASSUMPTIONS = [
     "states whose compound carries constant bounds on its own variable are outside this statement (negate keeps an explicit variable, bounds included)",
     "the negated object is reused across assignments (purity is C09's subject); truth of the original comes from the reference, not from evaluate()",
